@@ -136,9 +136,10 @@ impl Script {
         let mut cursor = Cursor::new(bytes);
 
         let mut bit_accumulator = vec![];
-        // Bytes that follow an OP_RETURN are data, not code (e.g. the state of an sCrypt stateful contract);
-        // there a final push that runs past the end keeps its lenient reading.
+        // Bytes that follow an OP_RETURN outside every conditional are data, not code (e.g. the state of an sCrypt
+        // stateful contract); there a final push that runs past the end keeps its lenient reading.
         let mut seen_op_return = false;
+        let mut open_conditionals = 0usize;
         while let Ok(byte) = cursor.read_u8() {
             if byte.ne(&(OpCodes::OP_0 as u8)) && byte.lt(&(OpCodes::OP_PUSHDATA1 as u8)) {
                 let mut data: Vec<u8> = vec![0; byte as usize];
@@ -149,7 +150,12 @@ impl Script {
                 }
                 continue;
             }
-            seen_op_return |= byte == OpCodes::OP_RETURN as u8;
+            match OpCodes::from_u8(byte) {
+                Some(OpCodes::OP_IF | OpCodes::OP_NOTIF | OpCodes::OP_VERIF | OpCodes::OP_VERNOTIF) => open_conditionals += 1,
+                Some(OpCodes::OP_ENDIF) => open_conditionals = open_conditionals.saturating_sub(1),
+                Some(OpCodes::OP_RETURN) => seen_op_return |= open_conditionals == 0,
+                _ => (),
+            }
 
             let bit = match OpCodes::from_u8(byte) {
                 Some(v @ (OpCodes::OP_PUSHDATA1 | OpCodes::OP_PUSHDATA2 | OpCodes::OP_PUSHDATA4)) => {
